@@ -824,6 +824,13 @@ REPLAYS = {
         'timeout 25 redo --no-log -j2 a b >out.log 2>&1; rc=$?; tail -3 out.log | cut -c1-160; '
         'if [ $rc -eq 124 ]; then echo "REPRODUCED: redo --no-log -j2 a b (a and b both need c, which takes 2 s) does not finish within 25 s"; else echo "finished, exit $rc"; fi',
         'REPRODUCED'),
+    # a second `redo t` arrives while the first one is inside t.do; after the wait it must rebuild t from the row as the first left it
+    'sched:stale-row-written-back': (
+        {'t.do': 'echo t >> trace\nwhile [ -e hold ]; do sleep 0.1; done\necho out\n'},
+        'touch hold; redo --no-log t >a.log 2>&1 & sleep 0.5; (redo --no-log t >b.log 2>&1; echo "b exit $?" >>b.log) & sleep 1; rm -f hold; wait; '
+        'n=$(grep -c "^t$" trace); k=$(redo-targets | grep -c "^t$"); tail -2 b.log | cut -c1-160; '
+        'if [ "$k" -ne 1 ] || [ "$n" -ne 2 ]; then echo "REPRODUCED: two redo t, the second waiting for the first: t.do ran $n time(s) (want 2), redo-targets lists t $k time(s) (want 1) - the row the first process recorded was overwritten"; else echo "t rebuilt by the second redo and still a target"; fi',
+        'REPRODUCED'),
     # one target under two spellings, held by another redo when the command reaches it
     'sched:target-run-twice/locked': (
         {'c.do': 'echo c >> trace\nwhile [ -e hold ]; do sleep 0.1; done\necho c\n'},
